@@ -1,5 +1,7 @@
 import PybtexModel.Drv.Json
+import PybtexModel.Drv.C20
 import PybtexModel.Model.Errors
+import PybtexModel.Model.ErrorSources
 import PybtexModel.Spec.Reporting
 open Lean
 namespace Pybtex.Drv.C16
@@ -114,7 +116,7 @@ def errclasses (_ : Json) : Except String Json :=
 
 /-! ### histories -/
 
-def parseOp (j : Json) : Except String (Op Nat) := do
+def parseOp (j : Json) : Except String (Errors.Op Nat) := do
   let o ← (← j.getObjVal? "o").getStr?
   match o with
   | "enter" => pure .enter
@@ -141,7 +143,7 @@ def obsJ (errs : Array Err) : Obs Nat → Except String Json
   | .noContext => pure (Json.str "no-context")
 
 /-- run the model, one record per operation: what it did and the module state after it -/
-def runJ (errs : Array Err) (c : Config Nat) : List (Op Nat) → Except String (List Json × Config Nat)
+def runJ (errs : Array Err) (c : Config Nat) : List (Errors.Op Nat) → Except String (List Json × Config Nat)
   | [] => pure ([], c)
   | op :: ops => do
     let r := step c op
@@ -151,7 +153,7 @@ def runJ (errs : Array Err) (c : Config Nat) : List (Op Nat) → Except String (
 
 /-- driver-side bookkeeping only: the list each context yielded, in the order of the enters
 (`open` = indices of the open contexts, innermost first) -/
-def listsByEnter : List (Op Nat) → List (Obs Nat) → List Nat → Array Json → Array Json
+def listsByEnter : List (Errors.Op Nat) → List (Obs Nat) → List Nat → Array Json → Array Json
   | op :: ops, o :: os, opened, acc =>
     match op, o with
     | .enter, _ => listsByEnter ops os (acc.size :: opened) (acc.push Json.null)
@@ -191,18 +193,90 @@ def errhist (j : Json) : Except String Json := do
                   ("balanced", Json.bool (balanced ops)),
                   ("depth", optJ nat (depthAfter 0 ops))])])
 
+/-! ### the expected problems of an input, computed from the reader models -/
+
+/-- placeholder for what the reader models do not track (file name: none; marker position):
+only class and `str(error)` of the values built with it are sent to the harness -/
+def noCtx : CtxInfo := { kind := .scanner, text := [], start := none, lineno := none, pos := 0 }
+
+def clsStrJ (e : Err) : Json := arr [Json.str e.className, strToJson e.str]
+
+def runEndJ : RunEnd → Json
+  | .finished => arr [Json.str "finished"]
+  | .bibtexError _ => arr [Json.str "fatal", Json.str "BibTeXError", Json.null]   -- C03 ties the class only
+  | .syntaxError c => arr [Json.str "fatal", Json.str c, Json.null]
+  | .bstSyntax e => arr [Json.str "fatal", Json.str e.className, strToJson e.str]
+  | .foreign w => arr [Json.str "foreign", Json.str w]
+  | .unknown => arr [Json.str "unknown"]
+
+def compEndJ (c : Comp Err) (modelOnly : Bool) : Json :=
+  match c.fatal with
+  | some f => arr [Json.str "fatal", Json.str f.className, strToJson f.str]
+  | none => if modelOnly then arr [Json.str "unknown"] else arr [Json.str "finished"]
+
+/-- `src` of a request → what the owning reader model says the problems of the input are -/
+def expectedJ (src : Json) : Except String Json := do
+  let kind ← (← src.getObjVal? "kind").getStr?
+  match kind with
+  | "bib" =>
+    let text ← getStr src "text"
+    let c := bibComp none noCtx text
+    let raw := Bib.parseBib text false none
+    -- a model-only outcome (shown unreachable by C10_total) must not pass for "no problem"
+    let lost := raw.1.errs.length != c.reports.length || (raw.2.isSome && c.fatal.isNone)
+    pure (obj [("reports", arr (c.reports.map clsStrJ)), ("end", compEndJ c lost),
+               ("strict", optJ clsStrJ (bibStrictRaised none noCtx text))])
+  | "bst" =>
+    let text ← getStr src "text"
+    let entry ← match (← (← src.getObjVal? "entry").getStr?) with
+      | "string" => pure BstEntry.string
+      | "stream" => pure BstEntry.stream
+      | "file" => pure BstEntry.file
+      | e => throw s!"unknown bst entry point {e}"
+    let c := bstComp none noCtx entry text
+    let lost := match bstParse entry text with
+      | .error e => (ofBst none noCtx e).isNone
+      | .ok _ => false
+    pure (obj [("reports", arr []), ("end", compEndJ c lost)])
+  | "aux" =>
+    let files ← C20.parseFiles (← getArr src "files")
+    let top ← getStr src "top"
+    let fs := Aux.fsOf files
+    let fuel := files.length + 1
+    let c := auxComp fs fuel top
+    let lost := match Aux.parse fs fuel top with
+      | .error a => (ofAuxFatal a.fatal).isNone
+      | .ok _ => false
+    pure (obj [("reports", arr (c.reports.map clsStrJ)), ("end", compEndJ c lost)])
+  | "bstrun" =>
+    let bst ← getStr src "bst"
+    let bibs ← getStrList src "bibs"
+    let cites ← getStrList src "citations"
+    let mc ← getInt src "min_crossrefs"
+    let fuel ← getNat src "fuel"
+    let r := bstRun none noCtx fuel bst { bibTexts := bibs, citations := cites, minCrossrefs := mc }
+    pure (obj [("reports", optJ (fun l => arr (l.map clsStrJ)) r.1), ("end", runEndJ r.2)])
+  | k => throw s!"unknown source kind {k}"
+
 /-! ### the three modes of one computation -/
 
-def errmodes (j : Json) : Except String Json := do
+def parseComp (j : Json) : Except String (Option (Comp Err)) := do
   let rsO ← (← getArr j "reports").mapM parseErr
   let fatalO ← match optField j "fatal" with
     | some f => do pure (some (← parseErr f))
     | none => pure none
-  if rsO.any Option.isNone || fatalO == some none then
-    return obj [("out", obj [("unmodelled", Json.bool true)]), ("spec", Json.null)]
-  let rs := rsO.filterMap id
-  let fatal : Option Err := fatalO.bind id
-  let c : Comp Err := { reports := rs, fatal := fatal }
+  if rsO.any Option.isNone || fatalO == some none then return none
+  pure (some { reports := rsO.filterMap id, fatal := fatalO.bind id })
+
+def errmodes (j : Json) : Except String Json := do
+  let expected ← match optField j "src" with
+    | some src => expectedJ src
+    | none => pure Json.null
+  match ← parseComp j with
+  | none => return obj [("out", obj [("unmodelled", Json.bool true)]), ("spec", obj [("expected", expected)])]
+  | some c =>
+  let rs := c.reports
+  let fatal := c.fatal
   let s0 : State Err := State.init
   let cap := execCaptured s0 c
   let ns := exec { s0 with strict := false } c
@@ -229,7 +303,90 @@ def errmodes (j : Json) : Except String Json := do
                   ("printed", arr (m.printed.map fun e => formatJ e warningPrefix)),
                   ("code", nat m.errorCode),
                   ("strict_raises", optJ errJ m.strictRaises),
-                  ("status", nat m.status)])])
+                  ("status", nat m.status),
+                  ("expected", expected)])])
+
+/-! ### the real command lines: `main` with options, several runs in one interpreter -/
+
+def parseOpt (j : Json) : Except String CliOpt := do
+  match ← j.getStr? with
+  | "strict" => pure .strict
+  | "other" => pure .other
+  | "rejected" => pure .rejected
+  | "info" => pure .info
+  | "plugin_error" => pure .pluginError
+  | o => throw s!"unknown option kind {o}"
+
+def errcli (j : Json) : Except String Json := do
+  let numArgs ← getNat j "num_args"
+  let code0 ← getNat j "code0"
+  let strict0 ← getBool j "strict0"
+  let perr : Err ← match optField j "perr" with
+    | some p => do
+      match ← parseErr p with
+      | some e => pure e
+      | none => throw "unmodelled plug-in error"
+    | none => pure (.plain .pybtexError [] none)
+  let runsJ ← getArr j "runs"
+  let runsO ← runsJ.mapM fun r => do
+    let opts ← (← getArr r "opts").mapM parseOpt
+    let nargs ← getNat r "nargs"
+    let c ← parseComp r
+    pure (c.map fun c => (({ opts := opts, nargs := nargs } : Argv), c))
+  if runsO.any Option.isNone then
+    return obj [("out", obj [("unmodelled", Json.bool true)]), ("spec", Json.null)]
+  let runs := runsO.filterMap id
+  let s0 : State Err := { strict := strict0, errorCode := code0, captured := none }
+  let r := cliRuns numArgs perr s0 runs
+  let runJ (x : List (Bool × Err) × Nat) : Json :=
+    obj [("stderr", arr (x.1.map fun p => formatJ p.2 (if p.1 then errorPrefix else warningPrefix))),
+         ("status", nat x.2)]
+  -- reference: what the property says about each run on its own (from the problems alone)
+  let specJ (ac : Argv × Comp Err) : Json :=
+    let strict := ac.1.opts.contains .strict
+    let problems := ac.2.reports.length + (if ac.2.fatal.isSome then 1 else 0)
+    obj [("strict", Json.bool strict), ("problems", nat problems),
+         ("first", optJ (fun e => formatJ e errorPrefix) (Spec.modes ac.2).strictRaises),
+         ("warnings", arr (ac.2.reports.map fun e => formatJ e warningPrefix)),
+         ("fatal", optJ (fun e => formatJ e errorPrefix) ac.2.fatal),
+         ("runs_computation", Json.bool (ac.1.nargs == numArgs && !(ac.1.opts.contains .rejected) && !(ac.1.opts.contains .pluginError) && !(ac.1.opts.contains .info))),
+         ("info", Json.bool ((ac.1.opts.takeWhile fun o => o != .rejected && o != .pluginError).contains .info))]
+  pure (obj [
+    ("out", obj [("runs", arr (r.2.map runJ)),
+                 ("final", arr [Json.bool r.1.strict, nat r.1.errorCode, Json.bool r.1.captured.isNone])]),
+    ("spec", obj [("runs", arr (runs.map specJ))])])
+
+/-! ### context managers left in any order -/
+
+def parseFOp (j : Json) : Except String (FOp Nat) := do
+  let o ← (← j.getObjVal? "o").getStr?
+  match o with
+  | "enter" => pure .enter
+  | "exitk" => pure (.exitNth (← getNat j "k"))
+  | "strict" => pure (.setStrict (← getBool j "b"))
+  | "report" => pure (.report (← getNat j "k"))
+  | _ => throw s!"unknown free history op {o}"
+
+def frunJ (errs : Array Err) (c : Config Nat) : List (FOp Nat) → Except String (List Json × Config Nat)
+  | [] => pure ([], c)
+  | op :: ops => do
+    let r := fstep c op
+    let o ← obsJ errs r.2
+    let rest ← frunJ errs r.1 ops
+    pure (obj [("obs", o), ("st", stateJ r.1.st)] :: rest.1, rest.2)
+
+def errfree (j : Json) : Except String Json := do
+  let errsO ← (← getArr j "errs").mapM parseErr
+  let errs ← errsO.mapM fun o => match o with
+    | some e => pure e
+    | none => throw "unmodelled error class in a history"
+  let ops ← (← getArr j "ops").mapM parseFOp
+  let strict0 ← getBool j "strict0"
+  let c0 : Config Nat := { st := { strict := strict0, errorCode := 0, captured := none }, saved := [] }
+  let (trace, cfin) ← frunJ errs.toArray c0 ops
+  pure (obj [
+    ("out", obj [("trace", arr trace), ("final", stateJ cfin.st), ("open", nat cfin.saved.length)]),
+    ("spec", obj [("lifo", Json.bool (lifo ops))])])
 
 /-! ### name format letters -/
 
@@ -245,6 +402,6 @@ def fmtchars (j : Json) : Except String Json := do
 
 def handlers : List (String × (Json → Except String Json)) :=
   [("errhist", errhist), ("errrender", errrender), ("errclasses", errclasses),
-   ("errmodes", errmodes), ("fmtchars", fmtchars)]
+   ("errmodes", errmodes), ("errcli", errcli), ("errfree", errfree), ("fmtchars", fmtchars)]
 
 end Pybtex.Drv.C16
